@@ -1,6 +1,7 @@
 package rules
 
 import (
+	"sort"
 	"fmt"
 	"go/types"
 	"strings"
@@ -24,8 +25,12 @@ func init() {
 type queueHelpers struct {
 	qType                *types.Named
 	enq, deq, head, emit *ssa.Function
+	// qi[f]: index of the queue parameter of helper f (functions take it last, methods first); xi[f]: index of its
+	// other parameter (-1 when it has none)
+	qi, xi map[*ssa.Function]int
 	// field roles, discovered from types and from emit's nil test (never from names)
 	fHead, fTail, fValue, fNext string
+	nodeFields                  []string
 }
 
 func findQueueHelpers(c *core.Ctx, mqType types.Type) *queueHelpers {
@@ -70,63 +75,113 @@ func findQueueHelpers(c *core.Ctx, mqType types.Type) *queueHelpers {
 			q.fValue = nst.Field(i).Name()
 		}
 	}
+	q.qi, q.xi = map[*ssa.Function]int{}, map[*ssa.Function]int{}
+	// candidates: package-level functions and methods of the queue type (helpers may be either)
+	var cands []*ssa.Function
 	sp := c.W.SSA["pipe"]
-	for _, m := range sp.Members {
-		fn, ok := m.(*ssa.Function)
-		if !ok || len(fn.Params) == 0 {
-			continue
+	var mnames []string
+	for n := range sp.Members {
+		mnames = append(mnames, n)
+	}
+	sort.Strings(mnames)
+	for _, n := range mnames {
+		if fn, ok := sp.Members[n].(*ssa.Function); ok {
+			cands = append(cands, fn)
 		}
-		last := fn.Params[len(fn.Params)-1].Type()
-		lp, ok := last.(*types.Pointer)
+	}
+	for i := 0; i < q.qType.NumMethods(); i++ {
+		if f := c.W.Prog.FuncValue(q.qType.Method(i)); f != nil {
+			cands = append(cands, f)
+		}
+	}
+	isQueuePtr := func(t types.Type) bool {
+		lp, ok := t.(*types.Pointer)
 		if !ok {
-			continue
+			return false
 		}
 		ln, ok := lp.Elem().(*types.Named)
-		if !ok || ln.Origin() != q.qType {
+		return ok && ln.Origin() == q.qType
+	}
+	for _, fn := range cands {
+		qIdx, xIdx, nq := -1, -1, 0
+		for i, prm := range fn.Params {
+			if isQueuePtr(prm.Type()) {
+				qIdx = i
+				nq++
+			} else {
+				xIdx = i
+			}
+		}
+		if nq != 1 || len(fn.Params) > 2 {
 			continue
 		}
 		res := fn.Signature.Results()
+		set := func(slot **ssa.Function) {
+			*slot = fn
+			q.qi[fn], q.xi[fn] = qIdx, xIdx
+		}
 		switch {
 		case len(fn.Params) == 2 && res.Len() == 0:
-			if _, isPtr := fn.Params[0].Type().(*types.Pointer); isPtr {
-				q.enq = fn
+			if _, isPtr := fn.Params[xIdx].Type().(*types.Pointer); isPtr {
+				set(&q.enq)
 			}
 		case len(fn.Params) == 2 && res.Len() == 1:
-			_, inChan := fn.Params[0].Type().Underlying().(*types.Chan)
+			_, inChan := fn.Params[xIdx].Type().Underlying().(*types.Chan)
 			_, outChan := res.At(0).Type().Underlying().(*types.Chan)
 			if inChan && outChan {
-				q.emit = fn
+				set(&q.emit)
 			}
 		case len(fn.Params) == 1 && res.Len() == 1:
 			if _, isPtr := res.At(0).Type().(*types.Pointer); isPtr {
-				q.deq = fn
+				set(&q.deq)
 			} else if _, isCh := res.At(0).Type().Underlying().(*types.Chan); !isCh {
-				q.head = fn
+				if _, isB := res.At(0).Type().Underlying().(*types.Basic); !isB {
+					set(&q.head)
+				}
 			}
 		}
 	}
-	if q.enq == nil || q.deq == nil || q.head == nil || q.emit == nil || q.fNext == "" || q.fValue == "" {
+	if q.enq == nil || q.deq == nil || q.fNext == "" || q.fValue == "" {
 		return nil
 	}
-	// head = the field emit tests for nil
-	an := c.Analyze(q.emit)
-	for _, p := range an.AllPaths() {
-		for _, st := range p.Events(ir.KBranch) {
-			st.Atom.Walk(func(t *ir.Term) {
-				if t.Op == "faddr" && (t.Aux == nodeFields[0] || t.Aux == nodeFields[1]) {
-					q.fHead = t.Aux
-				}
-			})
+	q.nodeFields = nodeFields
+	// head = the field emit tests for nil; without an emit helper (the nil-channel idiom written inline in the pump)
+	// it is the field the pump tests for nil - resolved by resolveHead once the pump is known
+	if q.emit != nil {
+		an := c.Analyze(q.emit)
+		for _, p := range an.AllPaths() {
+			q.headFromBranches(p)
+		}
+		if q.fHead == "" {
+			return nil
 		}
 	}
-	if q.fHead == "" {
-		return nil
-	}
-	q.fTail = nodeFields[0]
-	if q.fTail == q.fHead {
-		q.fTail = nodeFields[1]
-	}
 	return q
+}
+
+// headFromBranches: the node field that a nil test of path p speaks about becomes the head role.
+func (q *queueHelpers) headFromBranches(p *ir.Path) {
+	for _, st := range p.Events(ir.KBranch) {
+		at := st.Atom
+		if at.Op != "bin" || at.Aux != "==" || len(at.Args) != 2 {
+			continue
+		}
+		for i := 0; i < 2; i++ {
+			if !at.Args[i].IsNil() {
+				continue
+			}
+			o := at.Args[1-i]
+			if o.Op == "load" && len(o.Args) == 1 && o.Args[0].Op == "faddr" && (o.Args[0].Aux == q.nodeFields[0] || o.Args[0].Aux == q.nodeFields[1]) {
+				q.fHead = o.Args[0].Aux
+			}
+		}
+	}
+	if q.fHead != "" {
+		q.fTail = q.nodeFields[0]
+		if q.fTail == q.fHead {
+			q.fTail = q.nodeFields[1]
+		}
+	}
 }
 
 func runC08(c *core.Ctx) {
@@ -135,7 +190,7 @@ func runC08(c *core.Ctx) {
 	c.Doc("deq-once", 1, "send arm: value is head(queue); exactly one deq; no enq")
 	c.Doc("flush", 1, "flush loops: send head, deq once, while head != nil")
 	c.Doc("emit-summary", 1, "emit returns nil iff the queue is empty")
-	c.Doc("queue-discipline", 3, "enq / deq / head pointer maintenance")
+	c.Doc("queue-discipline", 2, "enq / deq / head pointer maintenance")
 	c.Doc("close-typestate", 1, "no close of a channel already observed closed")
 	c.Doc("sender-close-flushes", 1, "sender's close delivers the backlog before the receive side closes")
 	c.Doc("cancel-drains-input", 1, "cancel moves buffered sends into the queue before the flush")
@@ -165,21 +220,57 @@ func runC08(c *core.Ctx) {
 	for _, p := range g.An.AllPaths() {
 		for i := range p.Steps {
 			st := &p.Steps[i]
-			if st.Kind == ir.KEnter && len(st.A) > 0 {
-				last := st.A[len(st.A)-1]
-				if last.Op == "alloc" && last.Typ != nil {
-					if h := findQueueHelpers(c, last.Typ); h != nil {
-						mq, qh = last, h
+			if st.Kind == ir.KEnter && mq == nil {
+				for _, a := range st.A {
+					if a.Op == "alloc" && a.Typ != nil {
+						if h := findQueueHelpers(c, a.Typ); h != nil {
+							mq, qh = a, h
+						}
 					}
 				}
 			}
 		}
 	}
-	if mq == nil {
+	if mq != nil && qh.fHead == "" {
+		for _, p := range g.An.AllPaths() {
+			qh.headFromBranches(p)
+		}
+	}
+	if mq == nil || qh.fHead == "" {
 		c.Undecided("pump-select", name, g.Fn.Pos(), "the queue and its helper functions could not be discovered")
 		return
 	}
 	queueSummaries(c, qh)
+	// structural readers of the queue (used where the pump spells head / emit out instead of calling helpers)
+	isHeadNode := func(t *ir.Term) bool {
+		return t != nil && t.Op == "load" && len(t.Args) == 1 && t.Args[0].Op == "faddr" && t.Args[0].Aux == qh.fHead && ir.Same(t.Args[0].Args[0], mq)
+	}
+	isHeadValue := func(t *ir.Term) bool {
+		if t == nil || t.Op != "load" || len(t.Args) != 1 {
+			return false
+		}
+		x := t.Args[0]
+		return x.Op == "load" && len(x.Args) == 1 && x.Args[0].Op == "faddr" && x.Args[0].Aux == qh.fValue && isHeadNode(x.Args[0].Args[0])
+	}
+	// emptyBefore: what the path knows about head == nil before step index upto (+1 empty, -1 non-empty, 0 unknown);
+	// a queue mutation after the test voids it
+	emptyBefore := func(p *ir.Path, upto int) int {
+		r := 0
+		for i := 0; i < upto && i < len(p.Steps); i++ {
+			st := &p.Steps[i]
+			if st.Kind == ir.KBranch && st.Atom.Op == "bin" && st.Atom.Aux == "==" && len(st.Atom.Args) == 2 {
+				for k := 0; k < 2; k++ {
+					if st.Atom.Args[k].IsNil() && isHeadNode(st.Atom.Args[1-k]) {
+						r = polInt(st.Pol)
+					}
+				}
+			}
+			if st.Kind == ir.KStore && st.A[0].Op == "faddr" && st.A[0].Aux == qh.fHead && ir.Same(st.A[0].Args[0], mq) {
+				r = 0
+			}
+		}
+		return r
+	}
 
 	isHelper := func(st *ir.Step, fn *ssa.Function) bool { return st.Kind == ir.KEnter && st.Static == fn }
 	headNil := &ir.Term{Op: "bin", Aux: "==", Args: sorted2(ir.Nil, &ir.Term{Op: "load", Args: []*ir.Term{{Op: "faddr", Aux: qh.fHead, Args: []*ir.Term{mq}}}})}
@@ -202,6 +293,7 @@ func runC08(c *core.Ctx) {
 	}
 
 	okSel, okEnq, okDeq, okFlush := true, true, true, true
+	inlineArm := false
 	okTS, okSCF, okCDI := true, true, true
 	nRecv, nSend, nDone := 0, 0, 0
 	// helper: check a flush continuation starting at step index i of path p or in following loop segments
@@ -268,14 +360,30 @@ func runC08(c *core.Ctx) {
 		var emitRes, headRes *ir.Term
 		for i := 0; i < selIdx; i++ {
 			st := &p.Steps[i]
-			if isHelper(st, qh.emit) && ir.Same(st.A[0], eg) && ir.Same(st.A[1], mq) {
+			if isHelper(st, qh.emit) && ir.Same(st.A[qh.xi[qh.emit]], eg) && ir.Same(st.A[qh.qi[qh.emit]], mq) {
 				emitRes = leaveResult(p, i)
 			}
-			if isHelper(st, qh.head) && ir.Same(st.A[0], mq) {
+			if isHelper(st, qh.head) && ir.Same(st.A[qh.qi[qh.head]], mq) {
 				headRes = leaveResult(p, i)
 			}
 		}
-		if sArm >= 0 {
+		if qh.emit == nil || qh.head == nil {
+			// the nil-channel idiom spelled out in the pump: the arm is armed with the receive side and the head's
+			// value exactly on the paths that established head != nil
+			empty := emptyBefore(p, selIdx)
+			switch {
+			case sArm >= 0 && !sel.Arms[sArm].Chan.IsNil():
+				a := sel.Arms[sArm]
+				if empty >= 0 || !ir.Same(a.Chan, eg) || !isHeadValue(a.Val) {
+					okSel = false
+					c.Fail("pump-select", name, sel.Pos(), "the send arm must send the head's value on the receive side and be armed only when the queue is non-empty (head == nil known: %d); found %s <- %s", empty, short(a.Chan), short(a.Val))
+				}
+			case empty <= 0:
+				okSel = false
+				c.Fail("pump-select", name, sel.Pos(), "the select has no send arm although the queue may hold values")
+			}
+			inlineArm = true
+		} else if sArm >= 0 {
 			a := sel.Arms[sArm]
 			if emitRes == nil || headRes == nil || !ir.Same(a.Chan, emitRes) || !ir.Same(a.Val, headRes) {
 				okSel = false
@@ -325,9 +433,9 @@ func runC08(c *core.Ctx) {
 					}
 				}
 				recvd := &ir.Term{Op: "extract", Aux: fmt.Sprint(2 + recvIndex(sel, rArm)), Args: []*ir.Term{sel.R}}
-				good := countAfter(qh.enq) == 1 && countAfter(qh.deq) == 0 && len(sendsAfter) == 0 && p.To == mainH && ir.Same(enq.A[1], mq)
+				good := countAfter(qh.enq) == 1 && countAfter(qh.deq) == 0 && len(sendsAfter) == 0 && p.To == mainH && ir.Same(enq.A[qh.qi[qh.enq]], mq)
 				if good {
-					cell := enq.A[0]
+					cell := enq.A[qh.xi[qh.enq]]
 					good = cell.Op == "alloc" && freshOnPath(p, cell) && holdsAtEnter(p, cell, recvd, enq)
 				}
 				if !good {
@@ -446,6 +554,9 @@ func runC08(c *core.Ctx) {
 				}
 			}
 			isFlush := len(sends) > 0
+			if isFlush && headRes == nil && qh.head == nil && len(sends) == 1 && isHeadValue(sends[0].val) {
+				headRes = sends[0].val
+			}
 			if isFlush && !(len(sends) == 1 && ir.Same(sends[0].ch, eg) && headRes != nil && ir.Same(sends[0].val, headRes) && nd == 1 && ne == 0) {
 				okFlush = false
 				c.Fail("flush", name, lastPos(p), "a flush iteration must send head(queue) once and deq once (sends=%d deq=%d enq=%d)", len(sends), nd, ne)
@@ -458,6 +569,9 @@ func runC08(c *core.Ctx) {
 	}
 	if okSel {
 		c.Ok("pump-select", name, g.Fn.Pos(), fmt.Sprintf("recv/send/done arms on %d/%d/%d paths, one blocking operation per iteration", nRecv, nSend, nDone))
+	}
+	if inlineArm && okSel {
+		c.Ok("emit-summary", name+"#send-arm", g.Fn.Pos(), "send arm armed iff head != nil (nil-channel idiom written inline)")
 	}
 	if okEnq {
 		c.Ok("enq-once", name, g.Fn.Pos(), "")
@@ -630,26 +744,26 @@ func queueSummaries(c *core.Ctx, q *queueHelpers) {
 	isNilAtom := func(t *ir.Term) *ir.Term { return &ir.Term{Op: "bin", Aux: "==", Args: sorted2(ir.Nil, t)} }
 
 	// ---- emit
-	{
+	if q.emit != nil {
 		fn := q.emit
 		an := c.Analyze(fn)
 		ok := len(an.Problems) == 0
-		qp := &ir.Term{Op: "param", Aux: fn.Params[1].Name()}
+		qp := &ir.Term{Op: "param", Aux: fn.Params[q.qi[fn]].Name()}
 		for _, p := range an.AllPaths() {
 			empty := polarity(p, isNilAtom(fld(qp, q.fHead)))
 			r := p.Results[0]
-			if !(empty > 0 && r.IsNil() || empty < 0 && paramOf(r, fn, 0)) || len(nonLocalStores(p)) != 0 || len(p.Events(ir.KSend, ir.KRecv, ir.KSelect)) != 0 {
+			if !(empty > 0 && r.IsNil() || empty < 0 && paramOf(r, fn, q.xi[fn])) || len(nonLocalStores(p)) != 0 || len(p.Events(ir.KSend, ir.KRecv, ir.KSelect)) != 0 {
 				ok = false
 			}
 		}
 		c.Check(ok && an.NPaths == 2, "emit-summary", "pipe."+fn.Name(), fn.Pos(), "nil iff head == nil, else the channel", "emit must return nil exactly when queue.head == nil and its channel argument otherwise (otherwise the select sends zero values from an empty queue or never delivers)")
 	}
 	// ---- head
-	{
+	if q.head != nil {
 		fn := q.head
 		an := c.Analyze(fn)
 		ok := len(an.Problems) == 0
-		qp := &ir.Term{Op: "param", Aux: fn.Params[0].Name()}
+		qp := &ir.Term{Op: "param", Aux: fn.Params[q.qi[fn]].Name()}
 		for _, p := range an.AllPaths() {
 			empty := polarity(p, isNilAtom(fld(qp, q.fHead)))
 			r := p.Results[0]
@@ -666,7 +780,7 @@ func queueSummaries(c *core.Ctx, q *queueHelpers) {
 		an := c.Analyze(fn)
 		ok := len(an.Problems) == 0 && len(an.Headers) == 0
 		why := "could not be modelled"
-		qp := &ir.Term{Op: "param", Aux: fn.Params[1].Name()}
+		qp := &ir.Term{Op: "param", Aux: fn.Params[q.qi[fn]].Name()}
 		for _, p := range an.AllPaths() {
 			if !ok {
 				break
@@ -674,7 +788,7 @@ func queueSummaries(c *core.Ctx, q *queueHelpers) {
 			// the node: the value whose .value is set to param x
 			var node *ir.Term
 			for _, st := range nonLocalStores(p) {
-				if st.A[0].Op == "faddr" && st.A[0].Aux == q.fValue && paramOf(st.A[1], fn, 0) {
+				if st.A[0].Op == "faddr" && st.A[0].Aux == q.fValue && paramOf(st.A[1], fn, q.xi[fn]) {
 					node = st.A[0].Args[0]
 				}
 			}
@@ -713,7 +827,7 @@ func queueSummaries(c *core.Ctx, q *queueHelpers) {
 		an := c.Analyze(fn)
 		ok := len(an.Problems) == 0 && len(an.Headers) == 0
 		why := "could not be modelled"
-		qp := &ir.Term{Op: "param", Aux: fn.Params[0].Name()}
+		qp := &ir.Term{Op: "param", Aux: fn.Params[q.qi[fn]].Name()}
 		oldHead := fld(qp, q.fHead)
 		for _, p := range an.AllPaths() {
 			if !ok {
